@@ -294,7 +294,7 @@ theorem aget_conts_none (l : List KOut) (id : Nat) (h : ∀ o ∈ l, o.id ≠ id
 
 theorem Inv_kmset (R : ViewRel) (s : PState) (F : KFs) (h : Inv R s F) (t' : List (Nat × Nat))
     (hk : s.kins ≠ [])
-    (hstage : ∀ o ∈ s.kout, o.stage = 2 ∧ aget o.id s.tset = none)
+    (hstage : ∀ o ∈ s.kout, o.stage = 3 ∧ aget o.id s.tset = none)
     (happ : applyMSet s.tset (kmsetChanges s) = some t')
     (hf5 : s.imm ≠ [] → 5 ≤ s.fpc → s.fsst ∉ s.kins) :
     Inv R { s with tset := t', tcont := s.kout.map (fun o => (o.id, o.ents)) ++ s.tcont,
@@ -391,7 +391,7 @@ theorem Inv_kmset (R : ViewRel) (s : PState) (F : KFs) (h : Inv R s F) (t' : Lis
         intro x hx
         rcases (hmem' x).mp hx with ⟨o, ho, hxe⟩ | ⟨h1, h2⟩
         · subst hxe
-          obtain ⟨f, hf, hc⟩ := (h.sst.koutFiles o ho).2 (hstage o ho).1
+          obtain ⟨f, hf, hc⟩ := (h.sst.koutFiles o ho).2 (by rw [(hstage o ho).1]; omega)
           exact ⟨f, hf, by rw [hc]; show _ = [Chunk.table (entsOfTable tcont' o.id)]; rw [hcontOut o ho]⟩
         · obtain ⟨f, hf, hc⟩ := h.sst.tables x h1
           exact ⟨f, hf, by rw [hc]; show _ = [Chunk.table (entsOfTable tcont' x.1)]; rw [hcontOld x h1]⟩
